@@ -283,6 +283,8 @@ class SymMatrix:
     @classmethod
     def fromdense(cls, d):
         d = _np.asarray(d, dtype=object)
+        if d.ndim == 1:
+            d = d.reshape(1, -1)
         rows, cols, data = [], [], []
         for i in range(d.shape[0]):
             for j in range(d.shape[1]):
@@ -345,7 +347,16 @@ class SymMatrix:
         return SymMatrix.fromdense(self.toarray() - o)
 
     def __getitem__(self, key):
-        return self.toarray()[key]
+        if isinstance(key, tuple):
+            key = tuple(_np.asarray(k).astype(int) if isinstance(k, _np.ndarray) and k.dtype.kind == "f" else k
+                        for k in key)
+        r = self.toarray()[key]
+        if isinstance(r, _np.ndarray) and r.ndim == 1:
+            # scipy returns a 1 x N sparse matrix for fancy (rows, cols) indexing
+            return SymMatrix.fromdense(r.reshape(1, -1))
+        if isinstance(r, _np.ndarray) and r.ndim == 2:
+            return SymMatrix.fromdense(r)
+        return r
 
     @property
     def format(self):
